@@ -27,6 +27,7 @@ PROPERTY_FILES = ["C13/Properties.v"]
 REQ = ["BobV.C13.Model"]
 
 SIG_NL = "var-name-trailing-newline-accepted"
+NPAR = int(os.environ.get("C13_PAR", "3"))      # processes run in parallel by this check
 
 # ------------------------------------------------------------------ alphabets
 NASTY = ["'", '"', "$", "\\", "`", "\n", "\t", " ", "*", "?", "[", "]", "~", "#", "!", ";", "&", "|", "<", ">",
@@ -57,41 +58,49 @@ def gen_value(rng, maxlen=12):
 BASH_ENV = {"X": "x val", "Y_1": "it's", "EMPTY": "", "PATH": "/nonexistent-p1:/nonexistent p2", "A": "$X",
             "LANG": "C.UTF-8", "LC_ALL": "C.UTF-8"}
 BASH_DRIVER = r'''
+readonly X Y_1 EMPTY A PATH
 for w in "$@"; do
-  ( eval "export __V=$w" && printf '%s' "$__V" || printf '\001ERR' ) 2>/dev/null
+  unset __V
+  if eval "export __V=$w" 2>/dev/null; then printf '%s' "${__V-}"; else printf '\001ERR'; fi
   printf '\0'
 done
 '''
+# (no sub-shell per word: fork is expensive; the test variables are readonly so that a word cannot change
+#  the environment of the following ones; a word that kills the shell is isolated by bisection)
 
 
 def coq_env(d):
     return L.lst([L.pair(L.s(k), L.s(v)) for k, v in d.items()])
 
 
-def bash_eval_words(words, tmp):
-    """evaluate every word with real bash in assignment context; returns list of value or None (error)"""
-    out = []
-    chunk = 150
-    jobs = [words[i:i + chunk] for i in range(0, len(words), chunk)]
+def _bash_chunk(ws, tmp):
+    r = subprocess.run(["/bin/bash", "--norc", "--noprofile", "-c", BASH_DRIVER, "_"] + ws, cwd=tmp, env=BASH_ENV,
+                       stdout=subprocess.PIPE, stderr=subprocess.DEVNULL, stdin=subprocess.DEVNULL, timeout=300)
+    parts = r.stdout.split(b"\0")
+    if len(parts) != len(ws) + 1:
+        if len(ws) == 1:
+            return [None]
+        h = len(ws) // 2
+        return _bash_chunk(ws[:h], tmp) + _bash_chunk(ws[h:], tmp)
+    res = []
+    for p in parts[:-1]:
+        if b"\x01ERR" in p:
+            res.append(None)
+        else:
+            try:
+                res.append(p.decode("utf-8"))
+            except UnicodeDecodeError:
+                res.append(("undecodable", p.hex()))
+    return res
 
-    def one(ws):
-        r = subprocess.run(["/bin/bash", "--norc", "--noprofile", "-c", BASH_DRIVER, "_"] + ws, cwd=tmp, env=BASH_ENV,
-                           stdout=subprocess.PIPE, stderr=subprocess.DEVNULL, stdin=subprocess.DEVNULL, timeout=120)
-        parts = r.stdout.split(b"\0")
-        if len(parts) != len(ws) + 1:
-            return [("broken", r.returncode)] * len(ws)
-        res = []
-        for p in parts[:-1]:
-            if b"\x01ERR" in p:
-                res.append(None)
-            else:
-                try:
-                    res.append(p.decode("utf-8"))
-                except UnicodeDecodeError:
-                    res.append(("undecodable", p.hex()))
-        return res
-    with ThreadPoolExecutor(max_workers=4) as ex:
-        for res in ex.map(one, jobs):
+
+def bash_eval_words(words, tmp):
+    '''evaluate every word with real bash in assignment context; returns list of value or None (error)'''
+    out = []
+    chunk = 400
+    jobs = [words[i:i + chunk] for i in range(0, len(words), chunk)]
+    with ThreadPoolExecutor(max_workers=NPAR) as ex:
+        for res in ex.map(lambda ws: _bash_chunk(ws, tmp), jobs):
             out.extend(res)
     return out
 
@@ -122,9 +131,19 @@ def gen_word(rng):
     return "".join(rng.choice(WORD_ATOMS) for _ in range(rng.randint(1, 8)))
 
 
+import time as _time
+_T = {}
+
+
+def tick(ctx, name, t0):
+    _T[name] = round(_T.get(name, 0) + _time.time() - t0, 1)
+    return _time.time()
+
+
 def part_a(ctx, strings, tmp):
     """quote vs shlex.quote (through bob.languages); bash_word vs real bash"""
     rng = ctx.rng
+    t0 = _time.time()
     from bob import languages
     impl_quote = languages.quote
     strings = list(dict.fromkeys(s for s in strings if "\x00" not in s))
@@ -138,6 +157,7 @@ def part_a(ctx, strings, tmp):
         ctx.validated(len(cases) - len(bad))
         for i in bad[:5]:
             ctx.tie_broken("quote-correspondence", {"s": strings[i], "impl": impl_quote(strings[i])})
+    t0 = tick(ctx, "a:quote-coq", t0)
     # ---- oracle on the implementation: bash reads quote(s) back as s
     quoted = [impl_quote(s) for s in strings]
     got = bash_eval_words(quoted, tmp)
@@ -149,15 +169,19 @@ def part_a(ctx, strings, tmp):
         if g != s:
             ctx.violation("quote-roundtrip-broken", "bash reads quote(%r) = %r back as %r" % (s, q, g), {"kind": "quote", "s": s})
     # ---- bash_word model vs real bash: all quoted strings + raw fuzz
-    n_fuzz = ctx.n(2500, 60000)
+    n_fuzz = ctx.n(1200, 60000)
     words = list(quoted)
     words += [":".join(impl_quote(s) for s in rng.sample(strings, min(len(strings), rng.randint(1, 3)))) + rng.choice(["", ":$PATH", "$PATH"])
               for _ in range(ctx.n(300, 5000))]
     words += [gen_word(rng) for _ in range(n_fuzz)]
     words = list(dict.fromkeys(w for w in words if "\x00" not in w and w != ""))
+    t0 = tick(ctx, "a:bash1", t0)
     real = bash_eval_words(words, tmp)
+    t0 = tick(ctx, "a:bash2", t0)
     envlit = coq_env({k: v for k, v in BASH_ENV.items()})
-    # the model predicts Some v -> bash must produce v; model None -> outside the fragment (no claim)
+    # the model predicts Some v -> bash must produce v; model None -> outside the fragment (no claim).
+    # Every word is evaluated as two cases in one sharded run: k=0 lists the words inside the fragment,
+    # k=1 lists the words on which model and bash disagree.
     cases = []
     idx = []
     for i, (w, r) in enumerate(zip(words, real)):
@@ -165,35 +189,1230 @@ def part_a(ctx, strings, tmp):
         if isinstance(r, tuple):
             ctx.count("bash-word:" + r[0])
             continue
-        cases.append(("(benv, %s)" % L.s(w), L.opt(r, L.s)))
+        cases.append((L.s(w), "(@None str)" if r is None else "(Some %s)" % L.s(r)))
         idx.append(i)
+    n = len(cases)
+    both = [("(%s, %s)" % (a, b), "0") for a, b in cases] + [("(%s, %s)" % (a, b), "1") for a, b in cases]
     pre = "Definition benv : envmap := %s.\n" % envlit
-    pre += ("Definition word_agrees (m r : option str) : bool := match m, r with Some a, Some b => eqb_str a b "
-            "| Some _, None => false | None, _ => true end.\n")
-    bad, log = coq.run_cases(ctx, REQ, "(fun i => bash_word (fst i) (snd i))", "word_agrees", cases, preamble=pre, tag="bword")
+    pre += ("Definition wcode (i : str * option str) : N := match bash_word benv (fst i), snd i with "
+            "| None, _ => 0 | Some a, Some b => if eqb_str a b then 1 else 2 | Some _, None => 2 end.\n"
+            "Definition wok (code k : N) : bool := if k =? 0 then code =? 0 else negb (code =? 2).\n")
+    bad, log = coq.run_cases(ctx, REQ, "wcode", "wok", both, preamble=pre, tag="bword")
+    t0 = tick(ctx, "a:bword-coq", t0)
     if bad is None:
         ctx.tie_broken("C13 bash_word model evaluation failed", log)
         return
-    # how many words are inside the fragment (model gives Some)?
-    inside, log2 = coq.run_cases(ctx, REQ, "(fun i => bash_word (fst i) (snd i))",
-                                 "(fun m (_ : option str) => match m with Some _ => false | None => true end)", cases, preamble=pre, tag="bfrag")
-    n_inside = len(inside) if inside is not None else 0
-    ctx.count("bash-word:inside-fragment", n_inside)
-    ctx.count("bash-word:outside-fragment", len(cases) - n_inside)
-    ctx.validated(n_inside - len(bad))
-    for i in (inside or []):
+    inside = [i for i in bad if i < n]
+    wrong = [i - n for i in bad if i >= n]
+    ctx.count("bash-word:inside-fragment", len(inside))
+    ctx.count("bash-word:outside-fragment", n - len(inside))
+    ctx.validated(len(inside) - len(wrong))
+    for i in inside:
         ctx.nontrivial(("w", words[idx[i]]))
-    for i in bad[:8]:
+    for i in wrong[:8]:
         ctx.tie_broken("bash-word-correspondence", {"word": words[idx[i]], "bash": real[idx[i]]})
-    if bad:
-        ctx.count("bash-word:mismatch", len(bad))
+    if wrong:
+        ctx.count("bash-word:mismatch", len(wrong))
+
+
+
+# ================================================================== worker (sub-process, real Invoker)
+def worker_main(jobs_path, out_path):
+    """Executes step specs with the real bob.invoker.Invoker / bob.languages (imported from the repository
+    under test through PYTHONPATH).  Records every process the Invoker spawns (argv, environment)."""
+    import asyncio, io
+    from bob.languages import StepSpec
+    from bob.invoker import Invoker, InvocationMode
+    from bob import BOB_INPUT_HASH
+    from bob.utils import asHexStr
+    jobs = json.load(open(jobs_path))
+    results = []
+    saved_env = dict(os.environ)
+    for job in jobs:
+        rec = {"calls": [], "id": job["id"]}
+        try:
+            os.chdir(job["dir"])
+            d = dict(job["spec"])
+            d["vsn"] = asHexStr(BOB_INPUT_HASH)
+            spec = StepSpec.fromFile(io.StringIO(json.dumps(d)))
+            rec["root_entries"] = os.listdir("/")
+            if "sandbox" in d:
+                rec["image_entries"] = os.listdir(os.path.abspath(d["sandbox"]["root"]))
+                rec["host_exists"] = [m[0] for m in d["sandbox"]["hostMounts"] if os.path.exists(m[0])]
+            os.environ.clear()
+            os.environ.update(job["host"])
+            loop = asyncio.new_event_loop()
+            asyncio.set_event_loop(loop)
+            try:
+                orig = loop.subprocess_exec
+
+                async def rec_exec(factory, *args, _orig=orig, _rec=rec, **kw):
+                    _rec["calls"].append({"args": [a if isinstance(a, str) else os.fsdecode(a) for a in args],
+                                          "env": dict(kw.get("env") or {}), "cwd": kw.get("cwd")})
+                    return await _orig(factory, *args, **kw)
+                loop.subprocess_exec = rec_exec
+                inv = Invoker(spec, job["preserve"], True, True, True, job.get("trace", False), True)
+                if job.get("mode", "run") == "run":
+                    rec["ret"] = loop.run_until_complete(inv.executeStep(InvocationMode.CALL, False))
+                else:
+                    ret, out, err = loop.run_until_complete(inv.executeFingerprint())
+                    rec["ret"] = ret
+                    rec["fp_stdout"] = out.decode("utf-8", "surrogateescape")
+                    rec["fp_stderr"] = err.decode("utf-8", "replace")[-600:]
+                rec["stdio"] = inv.getStdio()[-1500:]
+            finally:
+                os.environ.clear()
+                os.environ.update(saved_env)
+                loop.close()
+            hint = d.get("scriptHint")
+            if hint and os.path.exists(hint):
+                with open(hint, encoding="utf-8", errors="surrogateescape", newline="") as f:
+                    rec["script"] = f.read()
+            ws = d["workspace"][0]
+            for name in ("env.bin", "args.bin", "seen.bin", "wrote.bin", "mountinfo.txt", "arrays.bin"):
+                fp = os.path.join(ws, name)
+                if os.path.exists(fp):
+                    with open(fp, "rb") as f:
+                        rec[name] = f.read().decode("utf-8", "surrogateescape")
+        except Exception as e:
+            import traceback
+            rec["exception"] = "%s: %s" % (type(e).__name__, e)
+            rec["trace"] = traceback.format_exc()[-1500:]
+        results.append(rec)
+    with open(out_path, "w") as f:
+        json.dump(results, f)
+
+
+def run_workers(tmp, jobs, nworkers=2, timeout=1800):
+    """distribute jobs over worker processes running against core.REPO"""
+    if not jobs:
+        return {}
+    chunks = [jobs[i::nworkers] for i in range(nworkers)]
+    procs = []
+    for i, ch in enumerate(chunks):
+        if not ch:
+            continue
+        jp = os.path.join(tmp, "jobs%d.json" % i)
+        op = os.path.join(tmp, "out%d.json" % i)
+        json.dump(ch, open(jp, "w"))
+        env = proj.bob_env()
+        procs.append((subprocess.Popen(["/venv/bin/python", os.path.abspath(__file__), "worker", jp, op], env=env,
+                                       stdout=subprocess.PIPE, stderr=subprocess.STDOUT, cwd=tmp), op))
+    res = {}
+    for p, op in procs:
+        try:
+            out, _ = p.communicate(timeout=timeout)
+        except subprocess.TimeoutExpired:
+            p.kill()
+            out = b"timeout"
+        if os.path.exists(op):
+            for r in json.load(open(op)):
+                res[r["id"]] = r
+        else:
+            res.setdefault("_errors", []).append(out.decode("utf-8", "replace")[-2000:])
+    return res
+
+
+# ================================================================== spec level (part B)
+INTRINSIC = {"PWD", "OLDPWD", "SHLVL", "_"}          # set by bash itself
+DECL_NAMES = ["A", "B1", "_x", "Z_9", "lower", "MiXed", "IFS", "HOME", "TERM", "WL1", "PATH", "LD_LIBRARY_PATH", "BOB_CWD",
+              "CDPATH", "PS4", "LONG_NAME_WITH_1_DIGIT", "a", "__"]
+HOST_NAMES_OK = ["WL1", "WL2", "SECRET1", "SECRET2", "HOME", "TERM", "USER", "LANG", "A", "B1", "EDITOR"]
+HOST_NAMES_ODD = ["SECRET-DASH", "1NUM", "sp ace", "FÜ", "dot.name", "BASH_FUNC_f%%"]
+
+DUMP_MAIN = r"""env -0 > env.bin
+for a in "$@"; do printf '%s\0' "$a"; done > args.bin
+for k in "${!BOB_ALL_PATHS[@]}"; do printf 'all\0%s\0%s\0' "$k" "${BOB_ALL_PATHS[$k]}"; done > arrays.bin
+for k in "${!BOB_DEP_PATHS[@]}"; do printf 'dep\0%s\0%s\0' "$k" "${BOB_DEP_PATHS[$k]}"; done >> arrays.bin
+for k in "${!BOB_TOOL_PATHS[@]}"; do printf 'tool\0%s\0%s\0' "$k" "${BOB_TOOL_PATHS[$k]}"; done >> arrays.bin
+"""
+
+
+def sandbox_probe(paths_to_try, marker_globs):
+    """script fragment (no forks except cat): record the mount table, the visible workspace markers and
+    where writing is possible"""
+    q = lambda x: "'" + x.replace("'", "'\"'\"'") + "'"
+    lines = ["cat /proc/self/mountinfo > mountinfo.txt", "shopt -s nullglob dotglob", ": > seen.bin", ": > wrote.bin"]
+    for g in marker_globs:
+        lines.append("for f in %s ; do printf '%%s\\0' \"$f\" >> seen.bin ; done" % g)
+    for pth in paths_to_try:
+        lines.append("if { : > %s/intruder ; } 2>/dev/null ; then printf '%%s\\0' %s >> wrote.bin ; fi" % (q(pth), q(pth)))
+    return "\n".join(lines) + "\n"
+
+
+def coq_spec(d):
+    fat = "None"
+    if "sandbox" in d:
+        sb = d["sandbox"]
+        fat = "(Some {| fs_root := %s; fs_paths := %s; fs_mounts := %s; fs_user := %s |})" % (
+            L.s(sb["root"]), coq_strs(sb["paths"]),
+            "(%s : list (str * str * list str))" % L.lst(["(%s, %s, %s)" % (L.s(a), L.s(b), coq_strs(o)) for a, b, o in sb["hostMounts"]]),
+            L.s(sb["user"]))
+    return ("{| sp_env := %s; sp_paths := %s; sp_libs := %s; sp_ws_storage := %s; sp_ws_exec := %s; sp_args := %s; "
+            "sp_whitelist := %s; sp_dep_mounts := %s; sp_slim := %s; sp_fat := %s; sp_net := %s; sp_envfile := %s; "
+            "sp_script_hint := %s; sp_jenkins := %s |}") % (
+        coq_envmap(d["env"]), coq_strs(d["paths"]), coq_strs(d["libraryPaths"]), L.s(d["workspace"][0]), L.s(d["workspace"][1]),
+        coq_strs(d["args"]), coq_strs(d["envWhiteList"]),
+        "(%s : list (str * str))" % L.lst([L.pair(L.s(a), L.s(b)) for a, b in d["depMounts"]]),
+        L.B(d["slimSandbox"]), fat, L.B(d["netAccess"]), L.opt(d["envFile"], L.s), L.opt(d["scriptHint"], L.s), L.B(d["isJenkins"]))
+
+
+def coq_strs(xs):
+    return "(%s : list str)" % L.lst([L.s(x) for x in xs])
+
+
+def coq_envmap(d):
+    items = d.items() if isinstance(d, dict) else d
+    return "(%s : envmap)" % L.lst([L.pair(L.s(k), L.s(v)) for k, v in items])
+
+
+def base_spec(ws, exec_ws=None):
+    return {"envFile": None, "envWhiteList": [], "logFile": None, "isJenkins": False, "scriptHint": os.path.join(os.path.dirname(ws), "script"),
+            "slimSandbox": False, "language": "bash", "env": {}, "paths": [], "libraryPaths": [], "workspace": [ws, exec_ws or ws],
+            "args": [], "allPaths": [], "depPaths": [], "toolPaths": [], "netAccess": False, "clean": None, "depMounts": [],
+            "preRunCmds": [], "setupScript": "", "mainScript": DUMP_MAIN, "updateScript": "", "postRunCmds": [], "fingerprintScript": ""}
+
+
+def gen_host(rng):
+    host = {"PATH": rng.choice(["/usr/bin:/bin", "/usr/local/bin:/usr/bin:/bin", "/bin:/usr/bin:/we ird:$x:'q'", "/usr/bin:/bin:"])}
+    for n in HOST_NAMES_OK:
+        if rng.random() < 0.55:
+            host[n] = gen_value(rng)
+    for n in HOST_NAMES_ODD:
+        if rng.random() < 0.3:
+            host[n] = gen_value(rng)
+    return {k: v for k, v in host.items() if "\x00" not in v}
+
+
+def gen_spec_job(rng, projdir, i):
+    ws = "ws/own%d/workspace" % i
+    d = base_spec(ws)
+    for n in rng.sample(DECL_NAMES, rng.randint(0, 6)):
+        v = gen_value(rng)
+        if "\x00" not in v:
+            d["env"][n] = v
+    if "IFS" in d["env"] and rng.random() < 0.5:
+        d["env"]["IFS"] = rng.choice(["/", ":", "x", "\n", "="])
+    tooldirs = ["ws/tool/bin", "ws/tool/.", "ws/t ool/it's", "/nonexistent/$x/`y`", "ws/tool/a:b", "ws/tool//dbl/../up", "ws/tool/é€"]
+    d["paths"] = sorted(rng.sample(tooldirs, rng.randint(0, 3)))
+    d["libraryPaths"] = rng.sample(tooldirs, rng.randint(0, 2))
+    argdirs = ["ws/dep1/workspace", "ws/dep 2/work space", "ws/dep'3/w", "/invalid/exec/path/of/x", "ws/dep$4/*", "ws/-dash/--", "ws/dep1/workspace"]
+    d["args"] = [rng.choice(argdirs) for _ in range(rng.randint(0, 4))]
+    names = ["lib-a", "lib.b", "pkg+x", "tool_1", "n:s"]
+    d["allPaths"] = sorted([rng.choice(names), a] for a in d["args"])
+    d["depPaths"] = sorted(x for x in d["allPaths"] if not x[1].startswith("/invalid"))
+    d["toolPaths"] = sorted([rng.choice(names), p] for p in d["paths"])
+    wl = ["PATH"] if rng.random() < 0.93 else []
+    wl += [n for n in ["HOME", "TERM", "USER", "WL1", "WL2", "NOTSET", "A", "SECRET-DASH"] if rng.random() < 0.4]
+    d["envWhiteList"] = sorted(set(wl))
+    if rng.random() < 0.15:
+        d["isJenkins"] = True
+    return {"id": "b%d" % i, "dir": projdir, "spec": d, "host": gen_host(rng), "preserve": rng.random() < 0.12,
+            "trace": rng.random() < 0.1, "mode": "run"}
+
+
+def parse_nul(s):
+    parts = s.split("\0")
+    return parts[:-1] if parts and parts[-1] == "" else parts
+
+
+def env_section(script):
+    """text of the `# Environment:` section of a generated script (with the final newline)"""
+    a = script.find("\n# Environment:\n")
+    b = script.find("\n\n# Setup\n", a)
+    if a < 0 or b < 0:
+        return None
+    return script[a + len("\n# Environment:\n"):b] + "\n"
+
+
+_DPATH = []
+
+
+def bash_default_path():
+    if not _DPATH:
+        r = subprocess.run(["/bin/bash", "--norc", "--noprofile", "-c", 'printf %s "$PATH"'], env={}, stdout=subprocess.PIPE)
+        _DPATH.append(r.stdout.decode())
+    return _DPATH[0]
+
+
+def oracle_env(job):
+    """independent statement of the property on one job: what the script must see"""
+    d = job["spec"]
+    exp = {}
+    for k, v in job["host"].items():
+        if job["preserve"] or k in d["envWhiteList"]:
+            exp[k] = v
+    if "sandbox" in d:
+        exp["PATH"] = ":".join(d["sandbox"]["paths"])
+    inherited = exp.get("PATH", bash_default_path())     # a bash that inherits no PATH uses its built-in default
+    exp.update(d["env"])
+    ab = lambda p: os.path.normpath(os.path.join(job["dir"], p))
+    exp["PATH"] = ":".join([ab(p) for p in d["paths"]] + [inherited])
+    exp["LD_LIBRARY_PATH"] = ":".join(ab(p) for p in d["libraryPaths"])
+    exp["BOB_CWD"] = ab(d["workspace"][1])
+    return exp
+
+
+def shrink_env_job(job, still_fails_many, rounds=8):
+    """greedy, batched: per round all single deletions are executed in one worker call"""
+    import copy
+    cur = copy.deepcopy(job)
+    for _ in range(rounds):
+        cands = []
+        for k in list(cur["spec"]["env"]):
+            c = copy.deepcopy(cur); del c["spec"]["env"][k]; cands.append(c)
+        for k in list(cur["host"]):
+            if k != "PATH":
+                c = copy.deepcopy(cur); del c["host"][k]; cands.append(c)
+        for key in ("paths", "libraryPaths", "args", "envWhiteList"):
+            for i in range(len(cur["spec"][key])):
+                c = copy.deepcopy(cur); del c["spec"][key][i]
+                c["spec"]["allPaths"] = []; c["spec"]["depPaths"] = []; c["spec"]["toolPaths"] = []
+                cands.append(c)
+        if not cands:
+            break
+        flags = still_fails_many(cands)
+        nxt = [c for c, f in zip(cands, flags) if f]
+        if not nxt:
+            break
+        cur = nxt[0]
+    return cur
+
+
+def classify_env_failure(job, seen, exp):
+    """signature of the class of a failing input (from the minimised case)"""
+    d = job["spec"]
+    for k in sorted(set(seen) | set(exp)):
+        if k in INTRINSIC:
+            continue
+        if k not in exp:
+            return "undeclared-variable-visible", "script sees %s=%r which is neither declared nor whitelisted" % (k, seen[k])
+        if k not in seen:
+            if k in d["env"]:
+                return "declared-variable-missing", "declared variable %s=%r is not visible" % (k, exp[k])
+            return "expected-variable-missing:" + ("bob" if k in ("PATH", "LD_LIBRARY_PATH", "BOB_CWD") else "host"), "%s is not visible" % k
+        if seen[k] != exp[k]:
+            if k in ("PATH", "LD_LIBRARY_PATH", "BOB_CWD"):
+                return "bob-variable-value:" + k, "%s is %r, expected %r" % (k, seen[k], exp[k])
+            if k in d["env"]:
+                return "declared-value-not-exact", "declared %s=%r arrives as %r" % (k, exp[k], seen[k])
+            return "host-value-not-exact", "whitelisted %s=%r arrives as %r" % (k, exp[k], seen[k])
+    return None, None
+
+
+def check_env_job(ctx, job, r, cases, meta, rerun):
+    """compare one executed job with the oracle and queue the model cases"""
+    d = job["spec"]
+    ctx.evaluated()
+    if "exception" in r:
+        ctx.violation("invoker-exception:" + r["exception"].split(":")[0], "Invoker raised %s" % r["exception"], {"kind": "spec", "job": job})
+        return
+    bash_calls = [c for c in r["calls"]]
+    if r.get("ret") != 0 or "env.bin" not in r:
+        ctx.count("spec:step-failed")
+        ctx.violation("step-failed-on-valid-spec", "step returned %r: %s" % (r.get("ret"), r.get("stdio", "")[-300:]), {"kind": "spec", "job": job})
+        return
+    seen = dict(x.split("=", 1) for x in parse_nul(r["env.bin"]) if "=" in x)
+    args = parse_nul(r["args.bin"])
+    exp = oracle_env(job)
+    sig, what = classify_env_failure(job, seen, exp)
+    exp_args = [os.path.normpath(os.path.join(job["dir"], a)) for a in d["args"]]
+    if sig is None and args != exp_args:
+        sig, what = "arguments-differ", "script got arguments %r, declared %r" % (args, exp_args)
+    if sig is not None:
+        def job_sig(j, rr):
+            if rr is None or "env.bin" not in rr:
+                return None
+            s2 = dict(x.split("=", 1) for x in parse_nul(rr["env.bin"]) if "=" in x)
+            g, _ = classify_env_failure(j, s2, oracle_env(j))
+            if g is None and parse_nul(rr["args.bin"]) != [os.path.normpath(os.path.join(j["dir"], a)) for a in j["spec"]["args"]]:
+                g = "arguments-differ"
+            return g
+
+        def many(cands):
+            return [job_sig(c, rr) == sig for c, rr in zip(cands, rerun(cands))]
+        small = job
+        if sig not in ctx.cov.setdefault("_shrunk", []):
+            ctx.cov["_shrunk"].append(sig)
+            small = shrink_env_job(job, many)
+        ctx.violation(sig, what, {"kind": "spec", "job": small})
+    key = (tuple(sorted(d["env"].items())), tuple(d["paths"]), tuple(d["args"]), tuple(sorted(job["host"].items())), tuple(d["envWhiteList"]), job["preserve"])
+    if any(any(c in v for c in "'\"$\\`\n *?") or any(ord(c) > 127 for c in v) for v in list(d["env"].values()) + d["args"] + d["paths"]):
+        ctx.nontrivial(key)
+    ctx.count("spec:declared=%d" % min(len(d["env"]), 4))
+    ctx.count("spec:" + ("preserve" if job["preserve"] else "filtered"))
+    # ---- model cases: (environment seen by the script, text of the prolog, argv + process environment of the call)
+    lit = "(%s, %s, %s, %s, %s, %s)" % (L.s(bash_default_path()), L.B(job["preserve"]), L.s(job["dir"]), coq_spec(d),
+                                    coq_envmap(job["host"]), L.B(job.get("trace", False)))
+    seen_sorted = sorted((k, v) for k, v in seen.items() if k not in INTRINSIC)
+    sect = env_section(r.get("script", ""))
+    call = r["calls"][-1]
+    argv = call["args"]
+    if "--" in argv and (d["slimSandbox"] or "sandbox" in d):
+        argv = argv[argv.index("--") + 1:]          # interpreter call behind the sandbox wrapper (wrapper: part D)
+    penv = sorted(call["env"].items())
+    cases.append((lit, "(%s, %s, %s, %s)" % (coq_envmap(seen_sorted), L.s(sect or ""), coq_strs(argv), coq_envmap(penv))))
+    meta.append(job)
+
+
+PRE_B = """
+Definition drop_intrinsic (e : envmap) : envmap :=
+  filter (fun kv => negb (str_mem (fst kv) [[80;87;68]; [79;76;68;80;87;68]; [83;72;76;86;76]; [95]])) e.
+Definition env_eqb (a b : envmap) : bool := eqb_list (eqb_prod eqb_str eqb_str) a b.
+Definition w0 (cwd : str) : world := {| w_cwd := cwd; w_tmp := []; w_root_entries := []; w_image_entries := [];
+       w_exists := []; w_helper := []; w_subst := fun x => x |}.
+Definition bmodel (i : str * bool * str * spec * envmap * bool) :=
+  let '(dpath, pres, cwd, sp, environ, trace) := i in
+  (match script_env dpath pres cwd sp environ with Some e => Some (sort_kv (drop_intrinsic e)) | None => None end,
+   render_exports (prolog_exports cwd sp),
+   call_args cwd [98;97;115;104] (snd (script_paths (w0 cwd) sp)) trace sp,
+   sort_kv (proc_env pres sp environ)).
+Definition bok (m : option envmap * str * list str * envmap) (o : envmap * str * list str * envmap) : bool :=
+  let '(me, mt, ma, mp) := m in let '(oe, ot, oa, op) := o in
+  match me with Some e => env_eqb e oe | None => false end && eqb_str mt ot && eqb_list eqb_str ma oa && env_eqb mp op.
+Definition bwhich (m : option envmap * str * list str * envmap) (o : envmap * str * list str * envmap) :=
+  let '(me, mt, ma, mp) := m in let '(oe, ot, oa, op) := o in
+  (match me with Some e => env_eqb e oe | None => false end, eqb_str mt ot, eqb_list eqb_str ma oa, env_eqb mp op).
+"""
+
+
+def part_b(ctx, tmp):
+    rng = ctx.rng
+    t0 = _time.time()
+    projdir = os.path.join(tmp, "pr oj'$x")
+    os.makedirs(projdir)
+    n = ctx.n(100, 6000)
+    jobs = [gen_spec_job(rng, projdir, i) for i in range(n)]
+    for f in sorted(glob.glob(os.path.join(core.VERIF, "corpus", "C13", "spec_*.json"))):
+        c = json.load(open(f))
+        j = c["job"]
+        j["dir"] = projdir
+        j["id"] = "corpus:" + os.path.basename(f)
+        j["spec"]["mainScript"] = DUMP_MAIN
+        jobs.insert(0, j)
+        ctx.count("spec:corpus")
+    res = run_workers(tmp, jobs, nworkers=NPAR)
+    t0 = tick(ctx, "b:invoke", t0)
+    for e in res.get("_errors", []):
+        ctx.tie_broken("worker-failed", e)
+
+    def rerun(js):
+        js = [dict(j, id="rerun%d" % i) for i, j in enumerate(js)]
+        rr = run_workers(tmp, js, nworkers=NPAR)
+        return [rr.get(j["id"]) for j in js]
+    cases, meta = [], []
+    for job in jobs:
+        r = res.get(job["id"])
+        if r is None:
+            ctx.tie_broken("worker-lost-job", job["id"])
+            continue
+        check_env_job(ctx, job, r, cases, meta, rerun)
+    ctx.sample({"spec-job": {"env": jobs[-1]["spec"]["env"], "host": jobs[-1]["host"], "whitelist": jobs[-1]["spec"]["envWhiteList"]}})
+    t0 = tick(ctx, "b:oracle", t0)
+    bad, log = coq.run_cases(ctx, REQ, "bmodel", "bok", cases, preamble=PRE_B, tag="bspec", shard=45)
+    if bad is None:
+        ctx.tie_broken("C13 spec-level model evaluation failed", log)
+    else:
+        ctx.validated(len(cases) - len(bad))
+        if bad:
+            ctx.count("spec:model-mismatch", len(bad))
+            terms = ["bwhich (bmodel %s) %s" % cases[i] for i in bad[:3]] + ["bmodel %s" % cases[bad[0]][0]]
+            vals, _ = coq.eval_terms(ctx, REQ, terms, preamble=PRE_B)
+            for n_, i in enumerate(bad[:3]):
+                j = meta[i]
+                ctx.tie_broken("spec-correspondence (script-env, prolog-text, argv, process-env) = %s" % (vals[n_] if vals else "?"),
+                               {"env": j["spec"]["env"], "host": j["host"], "wl": j["spec"]["envWhiteList"], "paths": j["spec"]["paths"],
+                                "libs": j["spec"]["libraryPaths"], "args": j["spec"]["args"], "preserve": j["preserve"],
+                                "model": (vals[-1][:1500] if vals and n_ == 0 else "")})
+    tick(ctx, "b:coq", t0)
+
+
+
+# ================================================================== sandboxes at spec level (part D1)
+HOST_MOUNTS3 = [[m, m, []] if isinstance(m, str) else [m[0], m[1], list(m[2])] for m in
+                ["/bin", "/etc", "/lib", "/usr", ["/lib32", "/lib32", ["nofail"]], ["/lib64", "/lib64", ["nofail"]],
+                 ["/nonexistent-mount", "/nonexistent-mount", ["nofail"]], ["/sbin", "/host-sbin", []], ["/opt", "/opt", ["nolocal"]]]]
+
+
+def parse_helper_mounts(argv):
+    """independent reading of the namespace-sandbox option semantics: [(src, tgt, rw)]"""
+    out = []
+    pending = None
+    i = 1
+    while i < len(argv):
+        a = argv[i]
+        if a == "--":
+            break
+        if a == "-M":
+            if pending is not None:
+                out.append((pending, pending, False))
+            pending = argv[i + 1]
+            i += 2
+        elif a in ("-m", "-w"):
+            out.append((pending, argv[i + 1], a == "-w"))
+            pending = None
+            i += 2
+        elif a in ("-S", "-H", "-d", "-W", "-l", "-L"):
+            i += 2
+        else:
+            i += 1
+    if pending is not None:
+        out.append((pending, pending, False))
+    return out
+
+
+def mountinfo_table(text):
+    """mount point -> 'ro'/'rw' of the topmost (last) mount on it"""
+    def unesc(x):
+        return re.sub(r"\\([0-7]{3})", lambda m: chr(int(m.group(1), 8)), x)
+    tab = {}
+    for line in text.split("\n"):
+        f = line.split(" ")
+        if len(f) < 7:
+            continue
+        tab[unesc(f[4])] = "ro" if "ro" in f[5].split(",") else "rw"
+    return tab
+
+
+def gen_sandbox_job(rng, tmp, i, kind):
+    """kind: slim | fat-stable | fat-dev | strict (slim wrapper + stable paths)"""
+    pd = os.path.join(tmp, "sb%d %s'q" % (i, kind))
+    names = ["dep1", "dep 2", "tool", "outsider", "image", "other'3"]
+    for nm in names:
+        w = os.path.join(pd, "ws", nm, "workspace")
+        os.makedirs(os.path.join(w, "bin"))
+        open(os.path.join(w, "marker-" + nm.replace(" ", "_").replace("'", "_")), "w").write(nm)
+    os.makedirs(os.path.join(pd, "rwdir"))
+    stable = kind in ("fat-stable", "strict")
+    ex = lambda nm: ("/bob/%s/workspace" % ("%02x" % names.index(nm) * 20)) if stable else "ws/%s/workspace" % nm
+    ws = "ws/own/workspace"
+    d = base_spec(ws, "/bob/%s/workspace" % ("aa" * 20) if stable else ws)
+    used = [nm for nm in ["dep1", "dep 2", "other'3"] if rng.random() < 0.6] or ["dep1"]
+    d["args"] = [ex(nm) for nm in used]
+    d["paths"] = [ex("tool") + "/bin"]
+    d["depMounts"] = [["ws/%s/workspace" % nm, ex(nm)] for nm in used + ["tool"]]
+    if rng.random() < 0.5:
+        d["depMounts"].append(d["depMounts"][0])          # Bob mounts the first argument twice for build steps
+    d["env"] = {"A": gen_value(rng).replace("\x00", ""), "DECL": "it's \"$x\""}
+    d["envWhiteList"] = ["PATH", "HOME", "WL1"]
+    d["netAccess"] = rng.random() < 0.3
+    if rng.random() < 0.6:
+        d["envFile"] = "ws/own/env"
+    if kind != "slim" and kind != "strict":
+        d["sandbox"] = {"root": "ws/image/workspace", "paths": ["/usr/local/bin", "/usr/bin", "/bin"],
+                        "hostMounts": HOST_MOUNTS3 + [[proj.lit(os.path.join(pd, "rwdir")), "/rwmnt", ["rw"]]],
+                        "user": rng.choice(["nobody", "root", "$USER"])}
+        d["depMounts"].append(["ws/image/workspace", ex("image")])
+    else:
+        d["slimSandbox"] = True
+    tries = [os.path.normpath(os.path.join(pd, d["workspace"][1]))] + [os.path.normpath(os.path.join(pd, ex(nm))) for nm in names if nm != "image"]
+    tries += [os.path.join(pd, "ws", nm, "workspace") for nm in names] + [pd, "/tmp", "/", "/rwmnt", "/usr", os.path.join(pd, "ws")]
+    tries = list(dict.fromkeys(tries))
+    q = lambda x: "'" + x.replace("'", "'\"'\"'") + "'"
+    globs = ["%s/ws/*/workspace/marker-*" % q(pd), "/bob/*/workspace/marker-*", "/marker-*"]
+    d["mainScript"] = DUMP_MAIN + sandbox_probe(tries, globs)
+    host = {"PATH": "/usr/bin:/bin", "HOME": "/root", "SECRET1": "s3cret", "WL1": "wl one", "TMPDIR": "/nonexistent"}
+    host.pop("TMPDIR")
+    return {"id": "d%d" % i, "dir": pd, "spec": d, "host": host, "preserve": False, "trace": False, "mode": "run",
+            "kind": kind, "used": used, "names": names, "tries": tries, "stable": stable}
+
+
+PRE_D = """
+Definition mount_eqb (a b : mount) : bool :=
+  eqb_str (m_src a) (m_src b) && eqb_str (m_tgt a) (m_tgt b) && Bool.eqb (m_rw a) (m_rw b).
+Definition dmodel (i : world * spec) := (sandbox_argv (fst i) (snd i), mount_plan (fst i) (snd i)).
+Definition dok (m o : list str * list mount) : bool :=
+  eqb_list eqb_str (fst m) (fst o) && eqb_list mount_eqb (snd m) (snd o).
+"""
+
+
+def part_d(ctx, tmp):
+    rng = ctx.rng
+    t0 = _time.time()
+    kinds = ["slim", "fat-stable", "fat-dev", "strict"]
+    n = ctx.n(8, 120)
+    jobs = [gen_sandbox_job(rng, tmp, i, kinds[i % 4]) for i in range(n)]
+    res = run_workers(tmp, jobs, nworkers=NPAR)
+    t0 = tick(ctx, "d:invoke", t0)
+    for e in res.get("_errors", []):
+        ctx.tie_broken("worker-failed", e)
+    cases, meta = [], []
+    for job in jobs:
+        r = res.get(job["id"])
+        d = job["spec"]
+        ctx.evaluated()
+        ctx.count("sandbox-spec:" + job["kind"])
+        if r is None or "exception" in r or r.get("ret") != 0 or "seen.bin" not in r:
+            ctx.violation("sandboxed-step-failed", "sandboxed step did not run: %s" % json.dumps(r)[-600:], {"kind": "sandbox-spec", "job": job})
+            continue
+        pd = job["dir"]
+        ab = lambda p_: os.path.normpath(os.path.join(pd, p_))
+        argv = r["calls"][-1]["args"]
+        # ---- oracle (independent of the model): what is visible, where writing succeeds
+        seen = sorted(parse_nul(r["seen.bin"]))
+        wrote = sorted(parse_nul(r["wrote.bin"]))
+        mounted = {}
+        for st, exe in d["depMounts"]:
+            mounted[ab(exe)] = ab(st)
+        exp_seen = []
+        for exe, st in mounted.items():
+            nm = os.path.basename(os.path.dirname(st))
+            if "sandbox" in d and st == ab(d["sandbox"]["root"]) and not exe.startswith("/bob/") and not exe.startswith(pd):
+                continue
+            mk = "marker-" + nm.replace(" ", "_").replace("'", "_")
+            if exe.startswith(pd + "/ws/") or exe.startswith("/bob/"):
+                exp_seen.append(os.path.join(exe, mk))
+        if "sandbox" in d:
+            exp_seen.append("/marker-image")
+        exp_seen = sorted(set(exp_seen))
+        own = ab(d["workspace"][1])
+        exp_wrote = {own, "/tmp"}
+        if "sandbox" in d:
+            exp_wrote.add("/rwmnt")
+        else:
+            exp_wrote |= {pd, os.path.join(pd, "ws")}       # the private whiteout directory (and mount-point parents in it)
+        # mount point parents created inside the whiteout / tmpfs are writable private directories too
+        wrote_rel = [w_ for w_ in wrote if w_ not in exp_wrote]
+        # ("/" is the private temporary sandbox root directory in both sandbox kinds)
+        bad_writes = [w_ for w_ in wrote_rel if w_ in mounted or w_ == "/usr" or
+                      any(w_ == os.path.join(pd, "ws", nm, "workspace") for nm in job["names"])]
+        # a non-mounted workspace path may exist as an empty private directory (parent of nothing) -> not writable host data
+        if seen != exp_seen:
+            extra = [x for x in seen if x not in exp_seen]
+            sig = "undeclared-workspace-visible" if extra else "declared-dependency-not-visible"
+            ctx.violation(sig + ":" + job["kind"], "sandbox shows %r, declared dependencies are %r" % (seen, exp_seen), {"kind": "sandbox-spec", "job": job})
+        if bad_writes or own not in wrote:
+            ctx.violation(("dependency-writable:" if bad_writes else "own-workspace-not-writable:") + job["kind"],
+                          "writes succeeded in %r (own workspace %s)" % (wrote, own), {"kind": "sandbox-spec", "job": job})
+        # writes into mounted dependencies must not have reached the host
+        for exe, st in mounted.items():
+            if os.path.exists(os.path.join(st, "intruder")):
+                ctx.violation("dependency-modified:" + job["kind"], "file created in dependency %s" % st, {"kind": "sandbox-spec", "job": job})
+        if os.path.exists(os.path.join(pd, "ws", "outsider", "workspace", "intruder")):
+            ctx.violation("outsider-modified:" + job["kind"], "file created in a workspace that is not a dependency", {"kind": "sandbox-spec", "job": job})
+        ctx.nontrivial(("sb", job["kind"], tuple(job["used"]), d["envFile"], d["netAccess"], d.get("sandbox", {}).get("user")))
+        # ---- kernel state vs. the helper command line
+        plan = parse_helper_mounts(argv)
+        tab = mountinfo_table(r.get("mountinfo.txt", ""))
+        for src, tgt, rw in plan:
+            got = tab.get(tgt if tgt != "/" else "/")
+            if got is None or (got == "rw") != rw:
+                ctx.tie_broken("mount-table-vs-kernel", {"mount": [src, tgt, rw], "mountinfo": got, "kind": job["kind"]})
+                break
+        # ---- model: command line and mount table
+        if "-S" in argv:
+            sarg = argv[argv.index("-S") + 1]
+            wtmp = sarg if "sandbox" in d else os.path.dirname(sarg)
+        else:
+            wtmp = ""
+        k = argv.index("--") if "--" in argv else len(argv)
+        wl = ("{| w_cwd := %s; w_tmp := %s; w_root_entries := %s; w_image_entries := %s; w_exists := %s; w_helper := %s; "
+              "w_subst := fun x => if eqb_str x %s then %s else x |}") % (
+            L.s(pd), L.s(wtmp), coq_strs(r["root_entries"]), coq_strs(r.get("image_entries", [])),
+            coq_strs([os.path.join(pd, "rwdir") if "rwdir" in h else h for h in r.get("host_exists", [])]), L.s(argv[0]),
+            L.s(proj.lit(os.path.join(pd, "rwdir"))), L.s(os.path.join(pd, "rwdir")))
+        mounts = "(%s : list mount)" % L.lst(["(mk_mount %s %s %s)" % (L.s(a), L.s(b), L.B(c)) for a, b, c in plan])
+        cases.append(("(%s, %s)" % (wl, coq_spec(d)), "(%s, %s)" % (coq_strs(argv[:k + 1]), mounts)))
+        meta.append(job)
+        # the interpreter call and the environment inside the sandbox (same comparison as part B)
+    ctx.sample({"sandbox-spec": {"kind": jobs[0]["kind"], "depMounts": jobs[0]["spec"]["depMounts"]}})
+    t0 = tick(ctx, "d:oracle", t0)
+    bad, log = coq.run_cases(ctx, REQ, "dmodel", "dok", cases, preamble=PRE_D, tag="dsb", shard=10)
+    if bad is None:
+        ctx.tie_broken("C13 sandbox model evaluation failed", log)
+    else:
+        ctx.validated(len(cases) - len(bad))
+        if bad:
+            vals, _ = coq.eval_terms(ctx, REQ, ["dmodel %s" % cases[bad[0]][0]], preamble=PRE_D)
+        for n_, i in enumerate(bad[:3]):
+            ctx.tie_broken("sandbox-command-line-correspondence", {"kind": meta[i]["kind"], "spec": meta[i]["spec"],
+                                                                   "model": (vals[0][:3000] if vals and n_ == 0 else "")})
+    tick(ctx, "d:coq", t0)
+
+
+
+# ================================================================== recipe level (part C / D2): real `bob dev`
+LABELS = {"checkout": "src", "build": "build", "package": "dist"}
+DEFAULT_WL = ["PATH", "TERM", "SHELL", "USER", "HOME"]      # compared with what the implementation computes
+
+
+def step_script(pkg, kind, projdir, fp=False):
+    """dump script of one step: marker first, then environment, arguments (with the markers found in each
+    argument) and the sandbox probe over every workspace of the project"""
+    lab = LABELS[kind]
+    q = "'" + projdir.replace("'", "'\"'\"'") + "'"
+    return r"""
+: > marker-%(pkg)s-%(lab)s
+env -0 > env.bin
+for a in "$@"; do printf '%%s\0' "$a"; done > args.bin
+shopt -s nullglob dotglob
+for a in "$@"; do m=("$a"/marker-*); printf '%%s\0' "${m[*]##*/}"; done > argmarkers.bin
+: > seen.bin ; : > wrote.bin
+for d in %(q)s/dev/*/*/*/workspace /bob/*/workspace ; do
+  for m in "$d"/marker-* ; do printf '%%s\0' "${m##*/}" >> seen.bin ; done
+  if [[ ! $d -ef $PWD ]] && { : > "$d/intruder-%(pkg)s-%(lab)s" ; } 2>/dev/null ; then printf '%%s\0' "$d" >> wrote.bin ; fi
+done
+for m in /marker-* ; do printf 'ROOT:%%s\0' "${m##*/}" >> seen.bin ; done
+if { : > %(q)s/intruder-top-%(pkg)s-%(lab)s ; } 2>/dev/null ; then printf 'PROJECT\0' >> wrote.bin ; fi
+for t in "${BOB_TOOL_PATHS[@]}" ; do if { : > "$t/intruder-tool" ; } 2>/dev/null ; then printf 'TOOL:%%s\0' "$t" >> wrote.bin ; fi ; done
+shopt -u nullglob dotglob
+""" % {"pkg": pkg, "lab": lab, "q": q}
+
+
+def gen_recipe_project(rng, projdir, sandbox):
+    """returns (desc, info).  info holds everything the oracle needs (independently of Bob)."""
+    def val():
+        while True:
+            v = gen_value(rng, 8)
+            if "\x00" not in v and len(v) < 80:
+                return v
+    genv = {"G1": val(), "G2": val()}
+    defines = {"DEF1": val()} if rng.random() < 0.6 else {}
+    if rng.random() < 0.4:
+        defines["G2"] = val()             # -D overrides default.yaml
+    cb_env = {"CB": val()}
+    envs = {"root": {"R1": val(), "R2": val(), "R3": val()}, "lib1": {"L1": val()}, "lib2": {"L2": val()}, "tl": {}, "sb": {},
+            "outsider": {"O1": val()}}
+    priv = {"root": {"RP": val()}, "lib1": {"LP": val()}, "lib2": {}, "tl": {}, "sb": {}, "outsider": {}}
+    dep_env = {"lib2": {"DV": val()}}
+    toolvar = val()
+    sbvar = val()
+    universe = ["G1", "G2", "DEF1", "CB", "R1", "R2", "R3", "RP", "L1", "L2", "LP", "DV", "O1", "TOOLVAR", "SBVAR", "UNDEF1",
+                "WLA", "SECRET1", "BOB_RECIPE_NAME", "BOB_PACKAGE_NAME"]
+
+    def subset(p):
+        return sorted(n for n in universe if rng.random() < p)
+    cls_vars = {"checkoutVars": subset(0.1), "buildVars": subset(0.12), "packageVarsWeak": subset(0.1)}
+    recipes = {}
+    vars_of = {}
+    pkgs = ["root", "lib1", "lib2", "tl", "outsider"] + (["sb"] if sandbox else [])
+    has_checkout = {p: (p in ("root", "lib1") or rng.random() < 0.3) for p in pkgs}
+    for pk in pkgs:
+        r = {}
+        v = {"checkoutVars": subset(0.18), "checkoutVarsWeak": subset(0.08), "buildVars": subset(0.25), "buildVarsWeak": subset(0.1),
+             "packageVars": subset(0.2), "packageVarsWeak": subset(0.1)}
+        if not has_checkout[pk]:
+            v["checkoutVars"] = []; v["checkoutVarsWeak"] = []
+        vars_of[pk] = v
+        r.update({k: x for k, x in v.items() if x or rng.random() < 0.5})
+        if envs[pk]:
+            r["environment"] = {k: proj.lit(x) for k, x in envs[pk].items()}
+        if priv[pk]:
+            r["privateEnvironment"] = {k: proj.lit(x) for k, x in priv[pk].items()}
+        if has_checkout[pk]:
+            r["checkoutDeterministic"] = True
+            r["checkoutScript"] = step_script(pk, "checkout", projdir)
+        r["buildScript"] = step_script(pk, "build", projdir)
+        r["packageScript"] = step_script(pk, "package", projdir)
+        recipes[pk] = r
+    recipes["root"]["root"] = True
+    recipes["outsider"]["root"] = True
+    recipes["root"]["inherit"] = ["cbase"]
+    deps = []
+    if sandbox:
+        deps.append({"name": "sb", "use": ["sandbox"], "forward": True})
+    deps += ["lib1", {"name": "lib2", "environment": {k: proj.lit(x) for k, x in dep_env["lib2"].items()}}, {"name": "tl", "use": ["tools"]}]
+    recipes["root"]["depends"] = deps
+    tool_step = rng.choice(["buildTools", "packageTools", "checkoutTools"])
+    recipes["root"][tool_step] = ["tool1"]
+    recipes["tl"]["provideTools"] = {"tool1": {"path": rng.choice(["bin", ".", "b in"]), "libs": ["lib"], "environment": {"TOOLVAR": proj.lit(toolvar)}}}
+    recipes["tl"]["packageScript"] += "mkdir -p bin lib 'b in'\n"
+    if sandbox:
+        recipes["sb"]["provideSandbox"] = {"paths": ["/usr/local/bin", "/usr/bin", "/bin"], "mount": SB_MOUNTS,
+                                           "environment": {"SBVAR": proj.lit(sbvar)}}
+    fp = None
+    if not sandbox and rng.random() < 0.8:
+        fpvars = sorted(n for n in ["R1", "R2", "G1", "RP", "UNDEF1", "CB"] if rng.random() < 0.4)
+        q = "'" + projdir.replace("'", "'\"'\"'") + "'"
+        recipes["root"]["fingerprintScript"] = "{ env -0 ; printf '@@END@@\\0' ; } >> %s/fp-root.bin\necho fingerprint\n" % q
+        recipes["root"]["fingerprintIf"] = True
+        recipes["root"]["fingerprintVars"] = fpvars
+        fp = fpvars
+    wl = ["WLA", "WLB"]
+    wl_remove = rng.choice([[], ["WLB"], ["TERM"], ["WLB", "USER"]])
+    default = {"environment": {k: proj.lit(x) for k, x in genv.items()}, "whitelist": wl}
+    if wl_remove:
+        default["whitelistRemove"] = wl_remove
+    desc = {"recipes": recipes, "classes": {"cbase": dict(cls_vars, environment={k: proj.lit(x) for k, x in cb_env.items()})},
+            "config": {"bobMinimumVersion": "0.25"}, "default": default}
+    info = {"genv": genv, "defines": defines, "cb_env": cb_env, "envs": envs, "priv": priv, "dep_env": dep_env, "toolvar": toolvar,
+            "sbvar": sbvar, "vars_of": vars_of, "cls_vars": cls_vars, "pkgs": pkgs, "has_checkout": has_checkout, "tool_step": tool_step,
+            "wl": wl, "wl_remove": wl_remove, "fp": fp, "sandbox": sandbox}
+    return desc, info
+
+
+def oracle_full_env(info, pk, sandbox_enabled):
+    """the environment the recipes compute for package pk (before pruning), by the documented rules:
+    default.yaml < -D < inherited from the parent < classes < recipe < tools < privateEnvironment; + BOB_* names"""
+    e = dict(info["genv"])
+    e.update(info["defines"])
+    if pk in ("root", "lib1", "lib2", "tl", "sb"):
+        e.update(info["cb_env"])
+        e.update(info["envs"]["root"])          # `environment` is passed on to the dependencies
+    if pk != "root":
+        if pk == "lib2":
+            e.update(info["dep_env"]["lib2"])
+        e.update(info["envs"][pk])
+    if sandbox_enabled and info["sandbox"] and pk in ("root", "lib1", "lib2", "tl"):
+        e["SBVAR"] = info["sbvar"]
+    if pk == "root":
+        e["TOOLVAR"] = info["toolvar"]
+    e.update(info["priv"][pk])
+    e["BOB_RECIPE_NAME"] = pk
+    e["BOB_PACKAGE_NAME"] = pk
+    return e
+
+
+def oracle_vars(info, pk, kind):
+    """declared (strong + weak) variable names of a step, chain checkout <= build <= package, recipe + classes"""
+    srcs = [info["vars_of"][pk]] + ([info["cls_vars"]] if pk == "root" else [])
+    chain = {"checkout": ["checkout"], "build": ["checkout", "build"], "package": ["checkout", "build", "package"]}[kind]
+    names = set()
+    for sv in srcs:
+        for c in chain:
+            names |= set(sv.get(c + "Vars", [])) | set(sv.get(c + "VarsWeak", []))
+    return names
+
+
+def coq_recipe_vars(sv):
+    g = lambda k: coq_strs(sv.get(k, []))
+    return ("{| rv_checkout := %s; rv_checkout_weak := %s; rv_build := %s; rv_build_weak := %s; rv_package := %s; "
+            "rv_package_weak := %s |}") % (g("checkoutVars"), g("checkoutVarsWeak"), g("buildVars"), g("buildVarsWeak"),
+                                           g("packageVars"), g("packageVarsWeak"))
+
+
+PRE_C = PRE_B_MARK = None      # filled below (needs PRE_B)
+
+
+def run_bob_stdin(pd, args, host, stdin, timeout=1500):
+    try:
+        r = subprocess.run(["/venv/bin/python", os.path.join(core.REPO, "bob")] + list(args), cwd=pd, env=host, stdin=stdin,
+                           stdout=subprocess.PIPE, stderr=subprocess.STDOUT, timeout=timeout, text=True)
+        return r.returncode, r.stdout
+    except subprocess.TimeoutExpired:
+        return 124, "timeout"
+
+
+def run_project(tmp, idx, desc, info, mode_args, host_extra, cli):
+    pd = os.path.join(tmp, "rp%d we'ird" % idx)
+    os.makedirs(pd, exist_ok=True)
+    proj.write_project(desc, pd)
+    host = proj.bob_env(host_extra)
+    args = ["dev", "root", "outsider", "-j", "1", "--no-audit", "--no-logfiles"] + mode_args + cli
+    for k, v in info["defines"].items():
+        args.append("-D%s=%s" % (k, v))
+    rc, out = run_bob_stdin(pd, args, host, subprocess.DEVNULL)
+    return pd, host, rc, out
+
+
+SB_MOUNTS = ["/bin", "/etc", "/lib", "/usr", ["/lib32", "/lib32", ["nofail"]], ["/lib64", "/lib64", ["nofail"]]]
+SIG_BASHRC = "fingerprint-env-leak:bashrc-via-socket-stdin"
+
+
+def probe_fingerprint_startup_files(ctx, tmp):
+    """fingerprint scripts must not depend on the invoking user's bash start-up files: run one build with a
+    socket as standard input (as under `ssh host bob ...` without tty) and a HOME whose .bashrc exports a variable"""
+    import socket
+    pd = os.path.join(tmp, "fp-sock")
+    home = os.path.join(tmp, "fp-home")
+    os.makedirs(home)
+    open(os.path.join(home, ".bashrc"), "w").write("export BASHRC_LEAK=from-bashrc\n")
+    q = "'" + pd + "'"
+    dump = "env -0 > %s/%%s.bin\n" % q
+    desc = {"recipes": {"root": {"root": True, "buildScript": dump % "build", "packageScript": dump % "package",
+                                 "checkoutDeterministic": True, "checkoutScript": dump % "checkout",
+                                 "fingerprintIf": True, "fingerprintScript": dump % "fp" + "echo fp\n"}},
+            "classes": {}, "config": {"bobMinimumVersion": "0.25"}, "default": {}}
+    os.makedirs(pd)
+    proj.write_project(desc, pd)
+    a, b = socket.socketpair()
+    try:
+        rc, out = run_bob_stdin(pd, ["dev", "root", "--no-audit", "--no-logfiles"], proj.bob_env({"HOME": home}), a.fileno())
+    finally:
+        a.close(); b.close()
+    ctx.evaluated()
+    replay = {"kind": "fingerprint-stdin-socket", "desc": desc}
+    if rc != 0:
+        ctx.violation("build-of-valid-project-failed", "bob dev with a socket as stdin returned %d: %s" % (rc, out[-400:]), replay)
+        return
+    for nm in ("checkout", "build", "package", "fp"):
+        f = os.path.join(pd, nm + ".bin")
+        if not os.path.exists(f):
+            ctx.violation("step-did-not-dump", "%s script did not run" % nm, replay)
+            continue
+        seen = dict(x.split("=", 1) for x in parse_nul(open(f, "rb").read().decode("utf-8", "surrogateescape")) if "=" in x)
+        ctx.count("stdin-socket:" + nm)
+        if "BASHRC_LEAK" in seen:
+            ctx.violation(SIG_BASHRC if nm == "fp" else "step-env-leak:bashrc-via-socket-stdin",
+                          "%s script sees BASHRC_LEAK=%r set only in ~/.bashrc (stdin of bob is a socket)" % (nm, seen["BASHRC_LEAK"]), replay)
+    ctx.nontrivial("fp-stdin-socket")
+
+
+
+def part_c(ctx, tmp):
+    rng = ctx.rng
+    t0 = _time.time()
+    runs = []
+    n_plain = ctx.n(2, 40)
+    n_sb = ctx.n(1, 8)
+    for i in range(n_plain):
+        runs.append(("plain", [], rng.choice([[], ["-e", "WLC"], ["-E"], ["-e", "WLC", "-e", "SECRET-DASH"]]) if i != 1 else ["-E"]))
+    for i in range(n_sb):
+        for m in ["--sandbox", "--slim-sandbox", "--dev-sandbox", "--strict-sandbox"]:
+            runs.append(("sandbox", [m], rng.choice([[], ["-e", "WLC"]])))
+    prepared = []
+    for idx, (kind, mode_args, cli) in enumerate(runs):
+        pd = os.path.join(tmp, "rp%d we'ird" % idx)
+        desc, info = gen_recipe_project(rng, pd, kind == "sandbox")
+        hx = {"WLA": gen_value(rng).replace("\x00", ""), "WLB": gen_value(rng).replace("\x00", ""), "WLC": gen_value(rng).replace("\x00", ""),
+              "SECRET1": "s3cret " + gen_value(rng).replace("\x00", ""), "SECRET-DASH": "x", "R1": "host value of a recipe variable",
+              "UNDEF1": "host value of an undefined variable", "USER": "bobv", "SHELL": "/bin/sh"}
+        prepared.append((idx, kind, mode_args, cli, desc, info, hx))
+    with ThreadPoolExecutor(max_workers=NPAR) as ex:
+        results = list(ex.map(lambda a: run_project(tmp, a[0], a[4], a[5], a[2], a[6], a[3]), prepared))
+    t0 = tick(ctx, "c:bob-dev", t0)
+    cases, meta, pcases, pmeta, mcases, mmeta, fcases, fmeta = [], [], [], [], [], [], [], []
+    hostdefs = ["Definition dpath0 : str := %s.\n" % L.s(bash_default_path())]
+    for (idx, kind, mode_args, cli, desc, info, hx), (pd, host, rc, out) in zip(prepared, results):
+        ctx.count("project:" + (mode_args[0] if mode_args else "no-sandbox") + ("" if not cli else ":" + cli[0]))
+        replay = {"kind": "project", "desc": desc, "info": info, "mode": mode_args, "cli": cli, "host": hx}
+        if rc != 0:
+            ctx.violation("build-of-valid-project-failed", "bob dev %s returned %d: %s" % (mode_args + cli, rc, out[-700:]), replay)
+            continue
+        preserve = "-E" in cli
+        hostdefs.append("Definition host%d : envmap := %s.\nDefinition pd%d : str := %s.\n" % (idx, coq_envmap(host), idx, L.s(pd)))
+        mode = mode_args[0] if mode_args else None
+        sandbox_enabled = mode in ("--sandbox", "--dev-sandbox", "--strict-sandbox")
+        exp_wl = sorted((set(DEFAULT_WL) | set(info["wl"])) - set(info["wl_remove"]) | {cli[i + 1] for i in range(len(cli)) if cli[i] == "-e"})
+        specs = {}
+        for pk in info["pkgs"]:
+            for kd, lab in LABELS.items():
+                sp = os.path.join(pd, "dev", lab, pk, "1", "step.spec")
+                if os.path.exists(sp):
+                    specs[(pk, kd)] = json.load(open(sp))
+        for (pk, kd), spec in sorted(specs.items()):
+            ws = os.path.join(pd, spec["workspace"][0])
+            ctx.evaluated()
+            ctx.count("step:" + kd)
+            rd = lambda nm: open(os.path.join(ws, nm), "rb").read().decode("utf-8", "surrogateescape") if os.path.exists(os.path.join(ws, nm)) else None
+            envb = rd("env.bin")
+            if envb is None:
+                ctx.violation("step-did-not-dump", "%s/%s has no dump" % (pk, kd), replay)
+                continue
+            seen = dict(x.split("=", 1) for x in parse_nul(envb) if "=" in x)
+            sandboxed = spec["slimSandbox"] or "sandbox" in spec
+            # ---- recipe-level oracle: declared variables with exact values, whitelist
+            full = oracle_full_env(info, pk, sandbox_enabled)
+            names = oracle_vars(info, pk, kd)
+            exp_decl = {k: full[k] for k in names if k in full}
+            where = "%s/%s (%s %s)" % (pk, kd, " ".join(mode_args), " ".join(cli))
+            if spec["env"] != exp_decl:
+                extra = sorted(set(spec["env"]) - set(exp_decl)); missing = sorted(set(exp_decl) - set(spec["env"]))
+                sig = "undeclared-variable-in-step-env" if extra else ("declared-variable-missing-in-step-env" if missing else "declared-value-differs-in-step-env")
+                ctx.violation(sig, "%s: step environment %r, recipes declare %r" % (where, spec["env"], exp_decl), replay)
+            if spec["envWhiteList"] != exp_wl:
+                ctx.violation("whitelist-differs", "%s: whitelist %r, configured %r" % (where, spec["envWhiteList"], exp_wl), replay)
+            # ---- what the script saw (same oracle as on spec level, on the real step.spec)
+            job = {"dir": pd, "spec": spec, "host": host, "preserve": preserve, "trace": False}
+            exp = oracle_env(job)
+            if "sandbox" in spec:
+                exp["HOME"] = seen.get("HOME", "")          # set by the sandbox helper from the image's passwd
+            sig, what = classify_env_failure(job, seen, exp)
+            if sig is not None:
+                ctx.violation(sig, where + ": " + what, replay)
+            for k, v in exp_decl.items():
+                if k not in ("PATH", "LD_LIBRARY_PATH", "BOB_CWD") and seen.get(k) != v:
+                    ctx.violation("declared-value-not-exact", "%s: %s=%r arrives as %r" % (where, k, v, seen.get(k)), replay)
+            leaked = [k for k in seen if k in ("SECRET1", "SECRET-DASH", "PYTHONPATH", "BOB_VERIF") and not preserve and k not in exp_wl]
+            if leaked:
+                ctx.violation("undeclared-variable-visible", "%s: host variables %r leaked" % (where, leaked), replay)
+            if any(any(c in v for c in "'\"$\\`\n *?") or any(ord(c) > 127 for c in v) for v in exp_decl.values()):
+                ctx.nontrivial(("step", idx, pk, kd))
+            # ---- arguments in declared order (markers identify the packages)
+            argm = parse_nul(rd("argmarkers.bin") or "")
+            if kd == "checkout":
+                exp_args = []
+            elif kd == "build":
+                exp_args = ["marker-%s-src" % pk if info["has_checkout"][pk] else ""]
+                if pk == "root":
+                    exp_args += ["marker-lib1-dist", "marker-lib2-dist"]
+            else:
+                exp_args = ["marker-%s-build" % pk]
+            if argm != exp_args:
+                ctx.violation("arguments-differ", "%s: arguments hold %r, declared order %r" % (where, argm, exp_args), replay)
+            # ---- sandbox: visible workspaces, writes
+            if sandboxed:
+                ctx.count("sandboxed-step:" + mode)
+                vis = sorted(set(x for x in parse_nul(rd("seen.bin") or "")))
+                own = ["marker-%s-%s" % (pk, LABELS[k2]) for k2 in ("checkout", "build", "package")
+                       if (k2 != "checkout" or info["has_checkout"][pk]) and list(LABELS).index(k2) <= list(LABELS).index(kd)]
+                expv = set(own)
+                if pk == "root" and kd == "build":
+                    expv |= {"marker-lib1-dist", "marker-lib2-dist"}
+                if pk == "root" and list(LABELS).index(info["tool_step"][:-5]) <= list(LABELS).index(kd):
+                    expv.add("marker-tl-dist")          # tools of an earlier step are available to the later ones
+                if "sandbox" in spec:
+                    expv |= {"marker-sb-dist", "ROOT:marker-sb-dist"}
+                if vis != sorted(expv):
+                    extra = sorted(set(vis) - expv)
+                    ctx.violation(("undeclared-workspace-visible:" if extra else "declared-dependency-not-visible:") + mode,
+                                  "%s: sandbox shows %r, declared %r" % (where, vis, sorted(expv)), replay)
+                wrote = [w_ for w_ in parse_nul(rd("wrote.bin") or "")]
+                badw = [w_ for w_ in wrote if w_.startswith("TOOL:") or w_.startswith("/bob/") or (w_ == "PROJECT" and "sandbox" in spec and False)]
+                if badw:
+                    ctx.violation("dependency-writable:" + mode, "%s: writes succeeded in %r" % (where, badw), replay)
+                ctx.nontrivial(("sbstep", idx, pk, kd, mode))
+            # ---- model cases
+            lit = "(dpath0, %s, pd%d, %s, host%d, false)" % (L.B(preserve), idx, coq_spec(spec), idx)
+            drop = INTRINSIC | ({"HOME"} if "sandbox" in spec else set())
+            seen_sorted = sorted((k, v) for k, v in seen.items() if k not in drop)
+            script = open(os.path.join(pd, spec["scriptHint"]), encoding="utf-8", errors="surrogateescape", newline="").read()
+            cases.append((lit, "(%s, %s, %s)" % (coq_envmap(seen_sorted), L.s(env_section(script) or ""), L.B("sandbox" in spec))))
+            meta.append({"where": where, "env": spec["env"]})
+            rs = [info["vars_of"][pk]] + ([info["cls_vars"]] if pk == "root" else [])
+            pcases.append(("(%s, %s, %s)" % (coq_envmap(sorted(full.items())), L.lst([coq_recipe_vars(x) for x in rs]),
+                                             {"checkout": "KCheckout", "build": "KBuild", "package": "KPackage"}[kd]),
+                           coq_envmap(sorted(spec["env"].items()))))
+            pmeta.append(where)
+            # ---- depMounts of StepSpec.fromStep vs dep_mounts
+            def stp(p_, k_):
+                s_ = specs.get((p_, k_))
+                if s_ is None:
+                    return None
+                return s_["workspace"][0]
+            def exec_of(storage):
+                for st_, ex_ in spec["depMounts"]:
+                    if st_ == storage:
+                        return ex_
+                return storage
+            def dep(p_, k_, valid=True):
+                st_ = stp(p_, k_)
+                if st_ is None:
+                    return "{| d_valid := false; d_storage := [47]; d_exec := [47] |}"
+                return "{| d_valid := true; d_storage := %s; d_exec := %s |}" % (L.s(st_), L.s(exec_of(st_)))
+            def stepT(p_, k_):
+                st_ = stp(p_, k_)
+                if st_ is None:
+                    return "(SNoArg false %s [47] [47])" % L.B(k_ == "checkout")
+                if k_ == "checkout":
+                    return "(SNoArg true true %s %s)" % (L.s(st_), L.s(exec_of(st_)))
+                others = []
+                if k_ == "build" and p_ == "root":
+                    others = [dep("lib1", "package"), dep("lib2", "package")]
+                prev = "checkout" if k_ == "build" else "build"
+                return "(SArg true false %s %s %s %s)" % (L.s(st_), L.s(exec_of(st_)), stepT(p_, prev), "(%s : list dep)" % L.lst(others))
+            ts = []
+            if pk == "root" and list(LABELS).index(info["tool_step"][:-5]) <= list(LABELS).index(kd):
+                ts.append(dep("tl", "package"))
+            if "sandbox" in spec or (sandbox_enabled and info["sandbox"] and pk in ("root", "lib1", "lib2", "tl") and
+                                     any(st_.startswith("dev/dist/sb/") for st_, _ in spec["depMounts"])):
+                ts.append(dep("sb", "package"))
+            mcases.append(("(%s, %s)" % (stepT(pk, kd), "(%s : list dep)" % L.lst(ts)),
+                           "(%s : list (str * str))" % L.lst([L.pair(L.s(a_), L.s(b_)) for a_, b_ in spec["depMounts"]])))
+            mmeta.append({"where": where, "depMounts": spec["depMounts"]})
+        # ---- nothing was written into other workspaces / the project directory from inside a sandbox
+        if mode is not None:
+            intr = glob.glob(os.path.join(glob.escape(pd), "dev", "*", "*", "*", "workspace", "intruder-*")) + glob.glob(os.path.join(glob.escape(pd), "intruder-*"))
+            # writes of un-sandboxed steps (mode --sandbox: packages without sandbox image) are legitimate
+            for f in intr:
+                who = os.path.basename(f)[len("intruder-"):].replace("top-", "")
+                wp, wl_ = who.rsplit("-", 1)
+                wk = [k_ for k_, l_ in LABELS.items() if l_ == wl_][0]
+                wspec = specs.get((wp, wk))
+                if wspec is not None and (wspec["slimSandbox"] or "sandbox" in wspec):
+                    ctx.violation("sandboxed-step-wrote-outside-workspace:" + mode, "%s created by sandboxed step %s" % (f[len(pd):], who), replay)
+                    break
+        # ---- fingerprint script environment
+        if info["fp"] is not None:
+            fpf = os.path.join(pd, "fp-root.bin")
+            ctx.evaluated()
+            if not os.path.exists(fpf):
+                ctx.violation("fingerprint-script-did-not-run", "no fingerprint dump", replay)
+            else:
+                # the script is executed once per fingerprinted step whose script text differs (build, package)
+                blocks = open(fpf, "rb").read().decode("utf-8", "surrogateescape").split("@@END@@\0")[:-1]
+                full = oracle_full_env(info, "root", False)
+                exps = {}
+                for kd in ("build", "package"):
+                    st_env = {k: full[k] for k in oracle_vars(info, "root", kd) if k in full}
+                    e_ = {k: v for k, v in host.items() if preserve or k in exp_wl}
+                    e_.update({k: st_env[k] for k in info["fp"] if k in st_env})
+                    exps[kd] = e_
+                ctx.count("fingerprint:executions=%d" % len(blocks))
+                for blk in blocks:
+                    fseen = dict(x.split("=", 1) for x in parse_nul(blk) if "=" in x)
+                    got = {k: v for k, v in fseen.items() if k not in INTRINSIC and k != "BOB_CWD"}
+                    which = [kd for kd in ("package", "build") if exps[kd] == got]
+                    if not which:
+                        extra = sorted(set(got) - set(exps["package"]))
+                        ctx.violation("fingerprint-env-" + ("leak" if extra else "differs"),
+                                      "fingerprint script saw %r, expected %r (package step) or %r (build step)" % (got, exps["package"], exps["build"]), replay)
+                    ctx.nontrivial(("fp", idx, tuple(sorted(got))))
+                    # model: fingerprint_env on the environment of the step the script belongs to
+                    spk = specs.get(("root", which[0] if which else "package"))
+                    if spk is not None and "BOB_CWD" in fseen:
+                        fl = "(%s, %s, host%d, %s, %s, %s)" % (L.B(preserve), coq_spec(spk), idx, L.s(fseen["BOB_CWD"]),
+                                                       coq_envmap(sorted(spk["env"].items())), coq_strs(info["fp"]))
+                        fcases.append((fl, coq_envmap(sorted((k, v) for k, v in fseen.items() if k not in INTRINSIC))))
+                        fmeta.append({"seen": fseen, "fpvars": info["fp"]})
+    ctx.sample({"project-step": meta[0] if meta else None})
+    t0 = tick(ctx, "c:oracle", t0)
+    groups = [("step-spec", "cmodel", "cok", cases, meta), ("prune", "pmodel", "env_eqb", pcases, pmeta),
+              ("dep-mounts", "mmodel", "mok", mcases, mmeta), ("fingerprint-env", "fmodel", "fok", fcases, fmeta)]
+    with ThreadPoolExecutor(max_workers=2) as ex:
+        outs = list(ex.map(lambda g: coq.run_cases(ctx, REQ, g[1], g[2], g[3], preamble=PRE_B + PRE_C2 + "".join(hostdefs),
+                                                   tag="c" + g[0][:3], shard=30), groups))
+    for (nm, fn, eqb, cs, mt), (bad, log) in zip(groups, outs):
+        if bad is None:
+            ctx.tie_broken("C13 %s model evaluation failed" % nm, log)
+            continue
+        ctx.validated(len(cs) - len(bad))
+        if bad:
+            vals, _ = coq.eval_terms(ctx, REQ, ["%s %s" % (fn, cs[bad[0]][0])], preamble=PRE_B + PRE_C2 + "".join(hostdefs))
+        for n_, i in enumerate(bad[:3]):
+            ctx.tie_broken(nm + "-correspondence", {"case": mt[i], "model": (vals[0][:2500] if vals and n_ == 0 else "")})
+    tick(ctx, "c:coq", t0)
+
+
+PRE_C2 = """
+Definition cmodel (i : str * bool * str * spec * envmap * bool) :=
+  let '(dpath, pres, cwd, sp, environ, trace) := i in
+  (match script_env dpath pres cwd sp environ with Some e => Some (sort_kv (drop_intrinsic e)) | None => None end,
+   render_exports (prolog_exports cwd sp)).
+Definition drop_home (e : envmap) : envmap := filter (fun kv => negb (eqb_str (fst kv) [72;79;77;69])) e.
+Definition cok (m : option envmap * str) (o : envmap * str * bool) : bool :=
+  let '(oe, ot, fat) := o in
+  match fst m with Some e => env_eqb (if fat then drop_home e else e) oe | None => false end && eqb_str (snd m) ot.
+Definition pmodel (i : envmap * list recipe_vars * kind) : envmap := let '(full, rs, k) := i in sort_kv (step_env full rs k).
+Definition mmodel (i : stepT * list dep) : list (str * str) := dep_mounts (fst i) (snd i).
+Definition mok (a b : list (str * str)) : bool := eqb_list (eqb_prod eqb_str eqb_str) a b.
+Definition fmodel (i : bool * spec * envmap * str * envmap * list str) : option envmap :=
+  let '(pres, sp, environ, fpcwd, stepenv, varset) := i in
+  match fingerprint_env pres sp environ fpcwd stepenv varset with Some e => Some (sort_kv (drop_intrinsic e)) | None => None end.
+Definition fok (m : option envmap) (o : envmap) : bool := match m with Some e => env_eqb e o | None => false end.
+"""
+
+
+def corpus_projects(ctx, tmp):
+    """recipe-level corpus: projects that must be rejected when parsed"""
+    for n_, f in enumerate(sorted(glob.glob(os.path.join(core.VERIF, "corpus", "C13", "project_*.json")))):
+        c = json.load(open(f))
+        pd = os.path.join(tmp, "corpus-p%d" % n_)
+        os.makedirs(pd)
+        proj.write_project(c["desc"], pd)
+        rc, out = run_bob_stdin(pd, ["dev", "root", "--no-audit", "--no-logfiles"], proj.bob_env(), subprocess.DEVNULL)
+        ctx.evaluated()
+        ctx.count("corpus-project:" + ("rejected" if rc != 0 else "accepted"))
+        ctx.nontrivial(("corpus-project", os.path.basename(f)))
+        if c["expect"] == "parse-error" and (rc == 0 or os.path.isdir(os.path.join(pd, "dev"))):
+            ctx.violation(c["signature"], "project %s was accepted and built: %s" % (os.path.basename(f), out[-300:]),
+                          {"kind": "corpus-project", "desc": c["desc"]})
+
+
+NAME_SAMPLES = ["A", "a1", "_", "_x9", "1A", "A-B", "A\n", "A B", "", "Ä", "A\n\n", "\nA", "A\r", "A=", "a.b", "LONG_NAME_1", "é", "A\x00",
+                "A\t", " A", "A ", "A;B", "$A", "A\u2028"]
+
+
+def name_validation(ctx):
+    """model name_ok_impl vs input.py (KeyValDefineValidator.VAR_NAME as used for environment keys)"""
+    from bob.input import KeyValDefineValidator
+    v = KeyValDefineValidator("environment", conditional=False)
+    cases = []
+    for nm in NAME_SAMPLES:
+        try:
+            v.validate({nm: "x"})
+            ok = True
+        except Exception:
+            ok = False
+        ctx.evaluated()
+        cases.append((L.s(nm), L.B(ok)))
+        if ok and not re.fullmatch(r"[A-Za-z_][A-Za-z0-9_]*", nm):
+            ctx.violation(SIG_NL if nm.endswith("\n") else "invalid-variable-name-accepted", "variable name %r is accepted" % nm,
+                          {"kind": "name", "name": nm})
+    bad, log = coq.run_cases(ctx, REQ, "name_ok_impl", "Bool.eqb", cases, tag="names")
+    if bad is None:
+        ctx.tie_broken("C13 name model evaluation failed", log)
+    else:
+        ctx.validated(len(cases) - len(bad))
+        for i in bad[:3]:
+            ctx.tie_broken("name-validation-correspondence", {"name": NAME_SAMPLES[i]})
+
+
+def replay(ctx, tmp):
+    d = json.load(open(ctx.replay))
+    c = d.get("case", d)
+    kind = c.get("kind")
+    if kind == "quote":
+        part_a(ctx, [c["s"]], tmp)
+    elif kind == "spec":
+        projdir = os.path.join(tmp, "pr oj'$x")
+        os.makedirs(projdir, exist_ok=True)
+        job = dict(c["job"], dir=projdir, id="replay")
+        res = run_workers(tmp, [job], nworkers=1)
+        cases, meta = [], []
+        check_env_job(ctx, job, res.get("replay") or {"exception": "worker: " + str(res)}, cases, meta, lambda js: [None] * len(js))
+        print("spec replay: env %r host %r -> %s" % (job["spec"]["env"], job["host"], "violation" if ctx.violations else "ok"))
+    elif kind == "project":
+        pd, host, rc, out = run_project(tmp, 0, c["desc"], c["info"], c["mode"], c["host"], c["cli"])
+        print("bob dev %s %s -> rc %d\n%s" % (c["mode"], c["cli"], rc, out[-1500:]))
+        print("(workspaces under %s are removed; re-run the full check for the oracle verdict)" % pd)
+        if rc != 0:
+            ctx.violation("build-of-valid-project-failed", "replayed", c)
+    elif kind == "fingerprint-stdin-socket":
+        probe_fingerprint_startup_files(ctx, tmp)
+    elif kind == "corpus-project":
+        corpus_projects(ctx, tmp)
+    elif kind == "name":
+        name_validation(ctx)
+    else:
+        part_d(ctx, tmp)
 
 
 def run(ctx):
-    ctx.rule = "see module docstring"
+    ctx.rule = ("(A) strings over a quote/dollar/backslash/newline/glob/control/non-ASCII heavy alphabet plus a hand-written hostile list; "
+                "raw fuzz words for the bash model; (B) generated step.spec files (hostile values, names like IFS/HOME/PATH, tool and "
+                "argument paths with blanks/quotes/dollars below a project directory named \"pr oj'$x\", hostile host environments incl. invalid "
+                "names, whitelists with/without PATH, preserve on/off, trace) executed by the real Invoker; (C) generated recipe projects "
+                "(declared/undeclared/weak over checkout/build/package, class inheritance, dependency environments, tools, -D/-e/-E, "
+                "whitelist/whitelistRemove, fingerprint scripts) built with `bob dev`, also under --sandbox/--slim-sandbox/--dev-sandbox/"
+                "--strict-sandbox; (D) sandboxed step.specs of all four kinds with probes.  A case is non-trivial when a value/path "
+                "contains a shell-active or non-ASCII character or the step is sandboxed; distinct by full input.")
+    ctx.assumptions += [
+        "bash itself is modelled only for the word fragment Bob emits (bash_word; validated against the real bash on every run); "
+        "bash start-up (default PATH, PWD/SHLVL/_/OLDPWD set by the shell) enters as the dpath parameter / is filtered from the comparison",
+        "shlex.quote is restated (quote) and tied by correspondence; the running Python's os.path.normpath is modelled (abspath) and tied by "
+        "the path literals of every case",
+        "namespace-sandbox.c: only the option semantics -M/-m/-w are modelled (helper_mounts); kernel enforcement of read-only bind mounts "
+        "and the rest of the helper are exercised (mountinfo, write attempts), not proved",
+        "YAML parsing, class linearisation and the computation of the full package environment (input.py before prune) are exercised through "
+        "the real RecipeSet and compared with an independent oracle, not modelled; jobserver MAKEFLAGS injection is not modelled (runs use -j1)",
+        "NUL characters and lone surrogates cannot occur in a POSIX environment / UTF-8 script and are excluded (hypothesis no_nul)",
+        "a declared variable named `_` is overwritten by bash itself; not generated",
+    ]
+    ctx.trusted_base += ["real /bin/bash as the reference for bash_word", "Linux mount namespaces (sandbox runs)"]
+    parts = os.environ.get("C13_PARTS", "abcd")       # development aid: run only some layers
     tmp = core.scratch_dir("c13")
     try:
-        strings = HOSTILE_VALUES + [gen_value(ctx.rng) for _ in range(ctx.n(1500, 30000))]
-        part_a(ctx, strings, tmp)
+        if ctx.replay:
+            return replay(ctx, tmp)
+        if "a" in parts:
+            strings = HOSTILE_VALUES + [gen_value(ctx.rng) for _ in range(ctx.n(800, 30000))]
+            part_a(ctx, strings, tmp)
+        if "b" in parts:
+            part_b(ctx, tmp)
+        if "a" in parts or "c" in parts:
+            name_validation(ctx)
+        if "c" in parts:
+            corpus_projects(ctx, tmp)
+            probe_fingerprint_startup_files(ctx, tmp)
+            part_c(ctx, tmp)
+        if "d" in parts:
+            part_d(ctx, tmp)
+        ctx.note("phase seconds: %r" % _T)
     finally:
         shutil.rmtree(tmp, ignore_errors=True)
+
+
+if __name__ == "__main__":
+    if len(sys.argv) == 4 and sys.argv[1] == "worker":
+        worker_main(sys.argv[2], sys.argv[3])
